@@ -19,6 +19,7 @@ finding (see DESIGN.md), identified by `after_reboot`.
 Non-trivial: histories with at least two requests separated by a clock advance.
 """
 import types
+from fractions import Fraction
 
 from harness import indep_ber as B
 from harness import refagent as RA
@@ -31,20 +32,22 @@ ASSUMPTIONS = [
     "re-synchronisation after an agent reboot is a recorded known finding, not claimed",
 ]
 OID = [1, 3, 6, 1, 2, 1, 1, 1, 0]
-DTS = [0, 1, 149, 150, 151, 200, 3600, 100000, 86400 * 30]
+# virtual time in ticks of 0.1 s (exact arithmetic: the client's monotonic clock returns Fractions)
+DTS = [0, 1, 8, 10, 25, 1490, 1495, 1500, 1505, 1510, 2000, 36000, 1000000, 864000 * 30]
 
 
 class World:
-    def __init__(self, level, ctx_engine, start, boots):
+    def __init__(self, level, ctx_engine, start, boots, report_ctx="same"):
         import puresnmp_plugins.mpm.v3 as mv3
 
         self.now = start
         self.boot_at = 0
         self.mv3 = mv3
         self.saved = getattr(mv3, "time", None)
-        mv3.time = types.SimpleNamespace(monotonic=lambda: float(self.now))
-        self.v3 = RA.V3Config(boots=boots, clock=lambda: self.now - self.boot_at)
+        mv3.time = types.SimpleNamespace(monotonic=lambda: Fraction(self.now, 10))
+        self.v3 = RA.V3Config(boots=boots, clock=lambda: (self.now - self.boot_at) // 10)
         self.bad_reply = None
+        self.report_ctx = report_ctx
         self.agent = RA.Agent(db=[(tuple(OID), ["str", "6f6b"])], v3=self.v3, hook=self.hook)
         self.client = W.make_client(self.agent, "v3", level)
         if ctx_engine:
@@ -54,13 +57,18 @@ class World:
         self.level = level
 
     def hook(self, agent, msg, out):
-        if isinstance(out, bytes) and msg.get("engine_id") == b"" and self.bad_reply:
+        if isinstance(out, bytes) and msg.get("engine_id") == b"" and (self.bad_reply or self.report_ctx != "same"):
             m = B.parse_message(out)
             sc = m["scoped"]
             vbs = [] if self.bad_reply == "novb" else sc["pdu"]["varbinds"]
             delta = 7 if self.bad_reply == "badid" else 0
-            pdu = B.enc_pdu(0xA8, sc["pdu"]["request_id"], 0, 0, vbs)
-            return B.enc_v3_message(m["msg_id"] + delta, 65507, 0, m["engine_id"], m["boots"], m["time"], b"", b"", b"", B.enc_scoped(sc["context_engine_id"], b"", pdu))
+            pdu_id = sc["pdu"]["request_id"]
+            if self.bad_reply == "badid-pdu-echo":  # foreign message id, but the PDU echoes the probe's id
+                delta, pdu_id = 7, m["msg_id"]
+            pdu = B.enc_pdu(0xA8, pdu_id, 0, 0, vbs)
+            # the contextEngineID of the Report need not be the authoritative engine id
+            ctx = {"same": sc["context_engine_id"], "empty": b"", "other": b"\x80\x00\x00\x09proxy"}[self.report_ctx]
+            return B.enc_v3_message(m["msg_id"] + delta, 65507, 0, m["engine_id"], m["boots"], m["time"], b"", b"", b"", B.enc_scoped(ctx, b"", pdu))
         return out
 
     def close(self):
@@ -73,11 +81,11 @@ class World:
             self.mv3.time = self.saved
 
     def in_window(self, boots, time_):
-        return boots == self.v3.boots and abs((self.now - self.boot_at) - time_) <= 150
+        return boots == self.v3.boots and abs((self.now - self.boot_at) // 10 - time_) <= 150
 
 
-def run_history(level, ctx_engine, start, boots, events):
-    w = World(level, ctx_engine, start, boots)
+def run_history(level, ctx_engine, start, boots, events, report_ctx="same"):
+    w = World(level, ctx_engine, start, boots, report_ctx)
     trace, results, failures = [], [], []
     rebooted = False
     try:
@@ -118,12 +126,12 @@ def run_history(level, ctx_engine, start, boots, events):
                     if ctx is not None and ctx != (ctx_engine or w.v3.engine_id).hex():
                         failures.append(("context engine id is neither the configured nor the discovered one", rebooted))
                     if level != "noauth" and not iw:
-                        failures.append((f"request outside the agent's time window: sent boots={e['boots']} time={e['time']}, agent boots={w.v3.boots} time={w.now - w.boot_at}", rebooted))
+                        failures.append((f"request outside the agent's time window: sent boots={e['boots']} time={e['time']}, agent boots={w.v3.boots} time={(w.now - w.boot_at) // 10}", rebooted))
             first_req = next((i for i, t in enumerate(trace) if t[0] == "req"), None)
             if first_req is not None and ["probe"] not in trace[:first_req]:
                 failures.append(("request sent before any discovery probe", rebooted))
             if ev[0] == "request-bad-reply" and entries and entries[0].get("kind") == "discovery":
-                want = ["error", ["invalidResponseId"]] if ev[1] == "badid" else ["error", ["snmpError"]]
+                want = ["error", ["invalidResponseId"]] if ev[1].startswith("badid") else ["error", ["snmpError"]]
                 if res != want:
                     failures.append((f"refused discovery reply ({ev[1]}) gave {res}", rebooted))
             elif level != "noauth" and res != ["ok"] and not (res == ["error", ["authError"]] and w.agent.raw_log and auth_len127(w.agent.raw_log[-1][1])):
@@ -144,7 +152,7 @@ def gen_history(rng, quick):
         elif r < 0.93:
             evs.append(["reboot"])
         else:
-            evs.append(["request-bad-reply", rng.choice(["badid", "novb"])])
+            evs.append(["request-bad-reply", rng.choice(["badid", "novb", "badid-pdu-echo"])])
     if not any(e[0].startswith("request") for e in evs):
         evs.append(["request"])
     return evs
@@ -153,13 +161,17 @@ def gen_history(rng, quick):
 def small_histories():
     """all histories request (advance dt request)* of length <= 3 requests over the boundary advances"""
     out = []
-    for d1 in [0, 1, 149, 150, 151, 100000]:
+    for d1 in [0, 8, 1490, 1500, 1510, 1000000]:
         out.append([["request"], ["advance", d1], ["request"]])
-        for d2 in [0, 150, 151, 100000]:
+        for d2 in [0, 1505, 1510, 1000000]:
             out.append([["request"], ["advance", d1], ["request"], ["advance", d2], ["request"]])
     out.append([["request"], ["reboot"], ["request"]])
     out.append([["request-bad-reply", "badid"], ["request"]])
-    out.append([["request-bad-reply", "novb"], ["advance", 5], ["request"], ["advance", 200], ["request"]])
+    out.append([["request-bad-reply", "novb"], ["advance", 50], ["request"], ["advance", 2000], ["request"]])
+    out.append([["request-bad-reply", "badid-pdu-echo"], ["request"]])
+    # a long poll at non-integral spacing: 0.8 s x 200 requests, 2.5 s x 70 requests
+    out.append([x for _ in range(200) for x in (["request"], ["advance", 8])])
+    out.append([x for _ in range(70) for x in (["request"], ["advance", 25])])
     return out
 
 
@@ -171,10 +183,11 @@ def run(ctx):
         hist.append((gen_history(ctx.rng, ctx.quick), ctx.rng.choice(["auth", "authpriv", "auth-sha1", "noauth"])))
     for events, level in hist:
         ctx_engine = ctx.rng.choice([b"", b"", b"\x80\x00\x00\x01ctx"])
-        start = ctx.rng.choice([0, 10, 1000, 2**31 - 100000 - 86400 * 31])
+        start = ctx.rng.choice([0, 107, 10000, (2**31 - 100000 - 86400 * 31) * 10 + 3])
         boots = ctx.rng.choice([0, 3, 2**16])
-        trace, results, failures = run_history(level, ctx_engine, start, boots, events)
-        case = {"level": level, "ctx": ctx_engine.hex(), "start": start, "boots": boots, "events": events}
+        report_ctx = ctx.rng.choice(["same", "same", "empty", "other"])
+        trace, results, failures = run_history(level, ctx_engine, start, boots, events, report_ctx)
+        case = {"level": level, "ctx": ctx_engine.hex(), "start": start, "boots": boots, "events": events, "report_ctx": report_ctx}
         res.count(f"level:{level}")
         res.count("requests", sum(1 for e in events if e[0].startswith("request")))
         res.count("reboots", sum(1 for e in events if e[0] == "reboot"))
@@ -191,7 +204,7 @@ def run(ctx):
             model = ans.get("ok", {}).get("trace") if "ok" in ans else ans
             if isinstance(model, list):
                 # the context engine id is invisible in encrypted requests the agent refused
-                model = [m if (m[0] == "probe" or t[2] is not None) else m[:2] + [None] + m[3:] for m, t in zip(model, trace)] + model[len(trace) :]
+                model = [m[:2] + [None] + m[3:] if (m[0] == "req" and t[0] == "req" and t[2] is None) else m for m, t in zip(model, trace)] + model[len(trace) :]
             if model != trace:
                 res.disagree("e2e-time", case, trace, model)
     else:
@@ -202,7 +215,7 @@ def run(ctx):
 
 def replay(ctx, payload):
     c = payload["case"]
-    trace, results, failures = run_history(c["level"], bytes.fromhex(c["ctx"]), c["start"], c["boots"], c["events"])
+    trace, results, failures = run_history(c["level"], bytes.fromhex(c["ctx"]), c["start"], c["boots"], c["events"], c.get("report_ctx", "same"))
     print("trace", trace)
     print("results", results)
     print("oracle", failures)
